@@ -15,6 +15,20 @@ Third wave (DESIGN.md 10.9), three further families:
  * decomposition histories: all sequences of 3 (thorough: also 4) letters over
    a 5-letter alphabet of (molecule, spelling/object) run back to back on ONE
    library object, the elemental clause evaluated after every step.
+
+Fourth wave (DESIGN.md 10.11), two further families for the elemental clause:
+ * hydrogen presentations: every vocabulary molecule handed over with SOME of
+   its hydrogens as atoms of the graph and the others implicit - every
+   non-empty subset of its hydrogen-bearing heavy atoms (more than 3 of them:
+   every single one and all of them) x {molecule object with hydrogens added
+   on those atoms only, the same graph parsed with removeHs=False, SMILES
+   with all / with one hydrogen per chosen atom written [2H]} (thorough: also
+   tritium-labelled molecule objects, pairs and all-but-one subsets);
+ * two library objects obtained by two separate GroupLibrary.Load calls (by
+   name / by path) used side by side: every ordered pair of letters of the
+   history alphabet x all 6 interleavings of decompose-A, estimate-A,
+   decompose-B, estimate-B, each estimate judged against the elemental sum of
+   the molecule ITS library decomposed last.
 """
 import math
 
@@ -23,6 +37,7 @@ from ..domains import estimates as E
 from ..domains import schemes as SD
 from ..domains import libs
 from ..domains import w3_c07 as W3
+from ..domains import w4_c07 as W4
 
 LEVEL = 'exploration'
 # my own conversion factors to J/mol (exact definitions; per-molecule units
@@ -56,6 +71,23 @@ BOUND = {t: '16 unit strings x (all unit vectors with count 1 and 0.5, all '
             'back on one library object per first letter, elemental clause '
             '(S_elements True and numpy True, 4 routes, first temperature of '
             'the range) after every step' % ('3' if t == 'quick' else '3 and all 5^4')
+            + '. Hydrogen presentations (elemental clause, S_elements True, 4 '
+            'routes, first temperature of the range), on every vocabulary '
+            'molecule of the 3 libraries: sigma = every non-empty subset of the '
+            'hydrogen-bearing heavy atoms when there are at most %d of them, '
+            'otherwise %s; x %d presentations (%s); molecules for which the '
+            'library gives no estimate with an entropy (base SMILES) are '
+            'skipped and counted. Two library objects: per '
+            'library (3) x 3 ways of obtaining the pair by two separate Load '
+            'calls (name+name, name+path, path+path) x all 25 ordered pairs of '
+            'the 5 history letters x the 6 admissible interleavings of '
+            'decompose-A, estimate-A, decompose-B, estimate-B; the elemental '
+            'clause of each estimate right after it is made and again after '
+            'all four operations' % (
+                W4.H_ALL_SUBSETS[t],
+                'every single atom and the full set' if t == 'quick' else
+                'every single atom, every pair, every all-but-one set and the full set',
+                len(W4.H_MODES[t]), ', '.join(W4.H_MODES[t]))
          for t in ('quick', 'thorough')}
 RULE = ('for each (object, temperature, unit string) the four dimensional '
         'getters are compared with the non-dimensional ones times the tabulated '
@@ -70,9 +102,17 @@ RULE = ('for each (object, temperature, unit string) the four dimensional '
         'presentation of S_elements must lower S/R by the elemental sum, every '
         'falsy one must leave it alone.  In a history every step is judged '
         'against the elemental sum of the molecule of THAT step.  '
+        'A molecule presented with some hydrogens explicit and some implicit '
+        'is judged against the elemental sum over the atoms of the complete '
+        'molecule (the harness adds the implicit hydrogens itself and checks '
+        'that the presentation has the formula of the base SMILES).  With two '
+        'library objects each estimate is judged against the molecule that '
+        'the library it was made from decomposed last, whatever the other '
+        'object did in between.  '
         'Non-trivial = a unit other than J/mol, an elemental-reference '
         'evaluation, a temperature not given as a Python float, an S_elements '
-        'value other than None/False/True, or a history step')
+        'value other than None/False/True, a history step, a hydrogen '
+        'presentation or an operation on one of two library objects')
 ASSUMPTIONS = ['pmutt.constants.R and S_elements are the "tabulated" values',
                'conversion factors between unit strings are written from the '
                'SI definitions; tolerance 1e-6 because the table is rounded '
@@ -83,7 +123,14 @@ ASSUMPTIONS = ['pmutt.constants.R and S_elements are the "tabulated" values',
                'that getter (array vs scalar agreement: C05)',
                'the sequences of one history shard share a library object, so '
                'each sequence is also preceded by the earlier ones; the '
-               'witness carries that complete history']
+               'witness carries that complete history',
+               'an isotope label does not change the element: [2H] and [3H] '
+               'count with the tabulated elemental entropy of hydrogen (the '
+               'table is indexed by atomic number)',
+               'all cases of one two-library shard run on the same two '
+               'objects (loading is the expensive step); the witness carries '
+               'every case those objects have seen, and a replay obtains its '
+               'own two objects by the same two Load calls']
 MANIFEST = dict(
     technique='exhaustive enumeration of unit strings x estimates x '
               'temperatures vs own conversion table and atom count',
@@ -98,7 +145,13 @@ MANIFEST = dict(
          '(9 presentations x 3 units), with S_elements given as any of 6 '
          'truthy / 7 falsy presentations of a truth value, and after every '
          'step of every 3-letter (thorough: 4-letter) decomposition history '
-         'over 5 letters on one library object (3 libraries).',
+         'over 5 letters on one library object (3 libraries).  The elemental '
+         'clause also for every vocabulary molecule presented with only some '
+         'of its hydrogens as atoms (subsets of the hydrogen-bearing atoms x '
+         '4 (thorough 5) ways of writing that down, as object and as string), '
+         'and for two library objects from two Load calls used side by side '
+         '(3 libraries x 3 ways of loading x 25 pairs of letters x 6 '
+         'interleavings).',
     note='The elemental clause is checked for the molecule decomposed '
          'immediately before the estimate, also when that molecule or others '
          'were decomposed on the same library object earlier (histories of '
@@ -345,6 +398,148 @@ def run_history(R, name, lib, history):
                         wit)
 
 
+def has_entropy_estimate(lib, smi):
+    """Does the library give an estimate with an entropy for the base SMILES
+    (implicit hydrogens) at all?  Only used to skip the hydrogen presentations
+    of molecules for which the elemental clause has nothing to judge."""
+    r = E.ev(lib.GetDescriptors, smi)
+    if r[0] != 'ok':
+        return False
+    e = E.ev(lib.Estimate, r[1], 'thermochem')
+    if e[0] != 'ok':
+        return False
+    rng = e[1].get_range()
+    return E.ev(e[1].get_SoR, 298.15 if rng is None else float(rng[0]))[0] == 'ok'
+
+
+def check_hpres(R, name, lib, smi, recipe):
+    """One hydrogen presentation (W4.present) of `smi`, decomposed immediately
+    before the estimate; S relative to the elements must be lowered by the
+    elemental entropies of ALL atoms, written or implied."""
+    from rdkit import Chem
+    import pmutt.constants as c
+    wit = dict(kind='hpres', lib=name, smiles=smi, recipe=[recipe[0], list(recipe[1])])
+    try:
+        arg, n_exp, n_imp = W4.present(smi, recipe)
+        Z = W4.atomic_numbers(arg)
+    except Exception:      # noqa  (RDKit cannot build it: nothing to judge)
+        R.outcomes['hpres:not-buildable'] += 1
+        return
+    base = sorted(a.GetAtomicNum() for a in
+                  Chem.AddHs(Chem.MolFromSmiles(smi)).GetAtoms())
+    if Z != base:
+        # my own construction went wrong: never judge pgradd on it
+        R.outcomes['hpres:presentation-changes-formula'] += 1
+        return
+    R.evals += 1
+    R.nontrivial += 1
+    r = E.ev(lib.GetDescriptors, arg)
+    if r[0] != 'ok':
+        R.outcomes['hpres:not-decomposable'] += 1
+        return
+    e = E.ev(lib.Estimate, r[1], 'thermochem')
+    if e[0] != 'ok':
+        R.outcomes['hpres:no-data'] += 1
+        return
+    e = e[1]
+    want_sub = math.fsum(c.S_elements[z] for z in Z)
+    rng = e.get_range()
+    T = 298.15 if rng is None else float(rng[0])
+    s0 = E.ev(e.get_SoR, T)
+    if s0[0] != 'ok':
+        R.outcomes['hpres:S-not-available'] += 1
+        return
+    g0 = E.ev(e.get_GoRT, T)
+    probs = elemental_problems(e, T, want_sub, True, 'True', s0, g0, len(Z))
+    mixed = 'mixed' if (n_exp and n_imp) else ('all-explicit' if n_exp else 'all-implicit')
+    R.outcomes['hpres:%s:%s:%s' % (recipe[0], mixed, 'ok' if not probs else 'bad')] += 1
+    for pr in probs[:1]:
+        R.violation('hydrogen-presentation:elements:%s' % (
+            'sum' if 'lowered' in pr else 'other'),
+            '[%s] %s presented as %s on atoms %r (%d hydrogens written as atoms, %d '
+            'implicit; argument %s) at T=%r: %s' % (
+                name, smi, recipe[0], list(recipe[1]), n_exp, n_imp,
+                arg if isinstance(arg, str) else 'Mol(%s)' % Chem.MolToSmiles(arg),
+                T, pr), wit)
+    R.sample(dict(library=name, molecule=smi, recipe=recipe,
+                  argument=arg if isinstance(arg, str) else 'Mol(%s)' % Chem.MolToSmiles(arg),
+                  explicit_H=n_exp, implicit_H=n_imp, elemental_SoR=want_sub), limit=1)
+
+
+def run_pairs(R, name, route, cases, pair=None):
+    """Two library objects A, B from two separate Load calls (`route`); every
+    case [letter for A, letter for B, order] executes its four operations in
+    `order`; each estimate is judged - right after it is made and again after
+    the fourth operation - against the elemental sum of the molecule that ITS
+    library decomposed last (atoms counted here)."""
+    from rdkit import Chem
+    import pmutt.constants as c
+    if pair is None:
+        how = route.split(',')
+        pair = (W4.make_library(name, how[0]), W4.make_library(name, how[1]))
+    L = dict(A=pair[0], B=pair[1])
+    if L['A'] is L['B']:
+        R.outcomes['pair:one-object'] += 1
+    for n, (la, lb, order) in enumerate(cases):
+        wit = dict(kind='pair', lib=name, route=route,
+                   cases=[[list(x[0]), list(x[1]), list(x[2])] for x in cases[:n + 1]])
+        letter = dict(A=la, B=lb)
+        desc, est, want, natoms = {}, {}, {}, {}
+        R.evals += 1
+        R.nontrivial += 1
+
+        def judge(which, when):
+            e = est.get(which)
+            if e is None:
+                return
+            rng = e.get_range()
+            T = 298.15 if rng is None else float(rng[0])
+            s0 = E.ev(e.get_SoR, T)
+            if s0[0] != 'ok':
+                R.outcomes['pair:S-not-available'] += 1
+                return
+            g0 = E.ev(e.get_GoRT, T)
+            probs = elemental_problems(e, T, want[which], True, 'True', s0, g0,
+                                       natoms[which])
+            same_mol = Chem.CanonSmiles(la[1]) == Chem.CanonSmiles(lb[1])
+            R.outcomes['pair:%s:%s:%s' % (
+                when, 'same-molecule' if same_mol else 'different-molecules',
+                'ok' if not probs else 'bad')] += 1
+            for pr in probs[:1]:
+                R.violation('two-libraries:elements:%s' % (
+                    'sum' if 'lowered' in pr else 'other'),
+                    '[%s, two objects loaded by %s] A gets %r, B gets %r, order %s: the '
+                    'estimate of library %s (%s) at T=%r: %s' % (
+                        name, route, la, lb, '-'.join(order), which, when, T, pr), wit)
+
+        for op in order:
+            which = op[1]
+            kind, smi = letter[which]
+            if op[0] == 'D':
+                arg = Chem.MolFromSmiles(smi) if kind == 'm' else smi
+                r = E.ev(L[which].GetDescriptors, arg)
+                desc[which] = r[1] if r[0] == 'ok' else None
+                if r[0] != 'ok':
+                    R.outcomes['pair:not-decomposable'] += 1
+                mh = Chem.AddHs(Chem.MolFromSmiles(smi))
+                want[which] = math.fsum(c.S_elements[a.GetAtomicNum()]
+                                        for a in mh.GetAtoms())
+                natoms[which] = mh.GetNumAtoms()
+            else:
+                if desc.get(which) is None:
+                    continue
+                e = E.ev(L[which].Estimate, desc[which], 'thermochem')
+                if e[0] != 'ok':
+                    R.outcomes['pair:no-data'] += 1
+                    continue
+                est[which] = e[1]
+                judge(which, 'fresh')
+        for which in ('A', 'B'):
+            judge(which, 'after-all-four')
+    R.sample(dict(library=name, loaded_by=route, cases=len(cases),
+                  interleavings=['-'.join(o) for o in W4.INTERLEAVINGS]), limit=1)
+
+
 def check_elements(R, name, lib, smi, as_object=False):
     """Decompose immediately before the estimate; S relative to elements."""
     from rdkit import Chem
@@ -475,6 +670,14 @@ def shards(tier, seed):
     for name in ELEM_LIBS:
         for first in range(len(W3.HIST_LETTERS[name])):
             out.append(('hist', name, first))
+    # hydrogen presentations of the vocabulary molecules
+    for name in ELEM_LIBS:
+        for i in range(4):
+            out.append(('hpres', name, i, 4))
+    # two library objects side by side: one pair per (library, way of loading)
+    for name in ELEM_LIBS:
+        for route in W4.PAIR_ROUTES:
+            out.append(('pair', name, route))
     return out
 
 
@@ -494,6 +697,22 @@ def run_shard(shard, tier):
         R.sample(dict(library=shard[1], letters=W3.HIST_LETTERS[shard[1]],
                       first_letter=shard[2], lengths=list(W3.HIST_LEN[tier]),
                       steps=len(whole)), limit=1)
+    elif shard[0] == 'hpres':
+        lib = E.fresh(shard[1])
+        mols = SD.molecules_for(shard[1], 'quick')
+        for smi in mols[shard[2]::shard[3]]:
+            recipes = W4.h_recipes(smi, tier)
+            if recipes and not has_entropy_estimate(lib, smi):
+                # the elemental clause cannot be judged for this molecule in
+                # this library however its hydrogens are written
+                R.outcomes['hpres:skipped-molecule-without-entropy-estimate'] += 1
+                R.outcomes['hpres:skipped-recipes'] += len(recipes)
+                continue
+            for recipe in recipes:
+                check_hpres(R, shard[1], lib, smi, recipe)
+    elif shard[0] == 'pair':
+        run_pairs(R, shard[1], shard[2],
+                  list(W4.pair_cases(W3.HIST_LETTERS[shard[1]])))
     else:
         lib = E.fresh(shard[1])
         mols = SD.molecules_for(shard[1], 'quick')
@@ -515,6 +734,10 @@ def replay(w):
     R = Result()
     if w['kind'] == 'elem':
         check_elements(R, w['lib'], E.fresh(w['lib']), w['smiles'], w.get('as_object', False))
+    elif w['kind'] == 'hpres':
+        check_hpres(R, w['lib'], E.fresh(w['lib']), w['smiles'], w['recipe'])
+    elif w['kind'] == 'pair':
+        run_pairs(R, w['lib'], w['route'], [list(x) for x in w['cases']])
     elif w['kind'] == 'hist':
         run_history(R, w['lib'], E.fresh(w['lib']), [list(x) for x in w['history']])
     else:
